@@ -171,16 +171,28 @@ func VerifC19Update() {
 		b.Increment(fs)
 		v, _ := m.get(c)
 		m.set(c, v+1)
+		vCheckBSI(b, m, "post")
+		// the caller's found-set stays the caller's: changing it later must not change the index
+		fs.Add(uint32((vsym.Param("cb"))+3))
+		fs.Remove(uint32(c))
 	case 9:
 		o, mo := vGenBSIAt(1, vsym.Param("w2"), 2)
 		b.ParOr(vsym.Param("par"), o)
 		m.set(mo.ps[0].col, mo.ps[0].val)
 	case 10:
-		o, mo := vGenBSIAt(1, w, vsym.Param("sc"))
+		ow := w
+		if w2 := vsym.Param("w2"); w2 > 0 {
+			ow = w2 // a wider argument makes Add create new planes in the receiver
+		}
+		o, mo := vGenBSIAt(1, ow, vsym.Param("sc"))
 		oc := mo.ps[0].col
 		cur, ex := m.get(oc)
 		b.Add(o)
 		m.set(oc, vsym.IteI64(ex, cur, 0)+mo.ps[0].val)
+		vCheckBSI(b, m, "post")
+		// value semantics: the argument index can be changed afterwards without affecting the sum
+		o.SetValue(oc, 0)
+		o.SetValue(oc+1, 1)
 	}
 	vCheckBSI(b, m, "post")
 	vsym.Reach("end")
